@@ -290,7 +290,13 @@ pub fn check_stitched(
     }
     // Expected restore content: new content for paths from the interrupted band, the older
     // version's content for the rest.
-    let listed_paths: BTreeSet<String> = expect.iter().map(|(e, _)| e.apath[1..].to_string()).collect();
+    // Ancestors count only if they are listed as directories: an entry below a path that the
+    // stitched listing holds as a file or symlink is an orphan as well.
+    let listed_paths: BTreeSet<String> = expect
+        .iter()
+        .filter(|(e, _)| e.kind == "Dir")
+        .map(|(e, _)| e.apath[1..].to_string())
+        .collect();
     let mut expected = Tree::new();
     let mut orphans: BTreeMap<String, tree::Node> = BTreeMap::new();
     for (e, from) in &expect {
